@@ -228,6 +228,15 @@ func WideFile() (protoreflect.FileDescriptor, error) {
 	deep := &descriptorpb.DescriptorProto{Name: proto.String("DeepFlat")}
 	addField(deep, fieldSpec{name: "d_a", num: 1, typ: tString})
 	addOptional(deep, fieldSpec{name: "d_b", num: 2, typ: tInt64})
+	// a third level of flattening with several properties innermost: proto paths of length four from Wide
+	addField(deep, fieldSpec{name: "deepest", num: 3, typ: tMsg, typeName: q("Deepest"),
+		opts: &ext_j5pb.FieldOptions{Type: &ext_j5pb.FieldOptions_Message{Message: &ext_j5pb.MessageFieldOptions{Flatten: true}}}})
+
+	deepest := &descriptorpb.DescriptorProto{Name: proto.String("Deepest")}
+	addField(deepest, fieldSpec{name: "z_a", num: 1, typ: tString})
+	addField(deepest, fieldSpec{name: "z_b", num: 2, typ: tInt64})
+	addField(deepest, fieldSpec{name: "z_list", num: 3, typ: tString, label: rep})
+	addField(deepest, fieldSpec{name: "z_leaf", num: 4, typ: tMsg, typeName: q("Leaf")})
 
 	mode := &descriptorpb.EnumDescriptorProto{
 		Name: proto.String("Mode"),
@@ -258,7 +267,7 @@ func WideFile() (protoreflect.FileDescriptor, error) {
 			"google/protobuf/any.proto", "google/protobuf/duration.proto", "google/protobuf/timestamp.proto", "j5/ext/v1/annotations.proto",
 			"j5/types/any/v1/any.proto", "j5/types/date/v1/date.proto", "j5/types/decimal/v1/decimal.proto",
 		},
-		MessageType: []*descriptorpb.DescriptorProto{wide, leaf, choice, flat, deep},
+		MessageType: []*descriptorpb.DescriptorProto{wide, leaf, choice, flat, deep, deepest},
 		EnumType:    []*descriptorpb.EnumDescriptorProto{mode, tone},
 	}
 	fd, err := protodesc.NewFile(fdp, protoregistry.GlobalFiles)
